@@ -24,6 +24,7 @@ import (
 	cryptocodec "github.com/cosmos/cosmos-sdk/crypto/codec"
 	sdk "github.com/cosmos/cosmos-sdk/types"
 	"github.com/cosmos/cosmos-sdk/types/module"
+	"github.com/cosmos/gogoproto/proto"
 )
 
 var (
@@ -201,6 +202,13 @@ func (am AppModule) EndBlock(ctx sdk.Context, _ abci.RequestEndBlock) []abci.Val
 	}
 
 	keeper.ResetAggregatorContextCheckTx()
+
+	// parameter changes are taken from the store, which holds exactly what the successful
+	// transactions of the block left there, and not from copies cached by the transactions
+	// themselves: such a copy would outlive a transaction that is reverted afterwards
+	if p, cur := am.keeper.GetParams(ctx), agc.GetParams(); !proto.Equal(&p, &cur) {
+		cs.AddCache(cache.ItemP(p))
+	}
 
 	if _, _, paramsUpdated := cs.CommitCache(ctx, false, am.keeper); paramsUpdated {
 		var p cache.ItemP
